@@ -48,6 +48,8 @@ def run(ck: Check) -> int:
     for nm in ('GetnInstruction', 'UpdatenInstruction', 'UnpairnInstruction', 'PairnInstruction', 'CarInstruction', 'CdrInstruction'):
         if hasattr(adt, nm):
             ck.function(getattr(adt, nm).__dict__['execute'], name=f'pytezos.michelson.instructions.adt:{nm}.execute')
+    from props.C17_P import run_P
+    run_P(ck)
     ck.assume('annotations are placed only where Michelson accepts them: field annotations on components of pair/or, type annotations anywhere')
     ck.trust('bounded/C17_annot.py (re-annotation of type arguments), bounded/C01_gen.py (programs), bounded/C01_engine.py (observation)')
     ck.rule('case = (program, typed input stack) x re-annotation; class = theme + top-level primitives; re-annotations: every node of every '
@@ -86,7 +88,9 @@ def run(ck: Check) -> int:
         ck.obligation('C17::terminates', 'undecided', kind='S', backend='native', detail=f'{n_to} case(s) timed out')
     ck.note(f'{len(results)} (program, input) cases x re-annotations = {n_var} relational evaluations')
     ck.exhaustive = False
-    return ck.finish('exploration',
-                     'R (bounded): outcome, result types, result values and PACK bytes of the real interpreter are invariant under re-annotation '
+    return ck.finish('other',
+                     'S (props/C17_P.py): the comb functions iter_comb / unpairn_comb / access_comb / update_comb / to_micheline_value and GET k / '
+                     'UPDATE k / UNPAIR m on the real ASTs over opaque components equal the annotation-blind specification for every annotation '
+                     'placement of a covering set on combs of 2..5 (6) components; R (bounded): outcome, result types, result values and PACK bytes of the real interpreter are invariant under re-annotation '
                      '(single nodes to depth 3 x {%a, :t, both}, all nodes, n-ary spelling) of stack types and type arguments, on type-directed '
                      'programs manipulating pairs/combs, options, unions and collections')
